@@ -571,6 +571,37 @@ theorem C03_getitem_negative_indices_and_slices {α : Type} (l : List α) :
 example : pyIndex [10, 20, 30] (-1) = some 30 ∧ pyIndex [10, 20, 30] (-4) = none ∧ pySlice [10, 20, 30, 40] 1 (-1) = [20, 30] ∧
     pySlice [10, 20, 30, 40] (-3) 9 = [20, 30, 40] := by decide
 
+/-- **`agg` with `min` / `max`, and the error arms of `agg` and `map`**: on a non-empty set `agg(k, min)` (`max`) returns a value
+    that some member has and that is ≤ (≥) every member's value; on an empty set they raise `ValueError` (Python's `min([])`);
+    if some member lacks the attribute, every aggregation and every attribute-reading `map` raises `AttributeError`; calling a
+    method name no agent has raises `AttributeError` exactly when the set is non-empty (an empty set maps to `[]`). -/
+theorem C03_agg_min_max_and_error_arms (st : Store) (s k : Nat) :
+    (∀ vs, (st.get s).mapM (fun i => (st.agent i).attr k) = some vs →
+      (vs = [] → agg st s k .min = .error .value ∧ agg st s k .max = .error .value) ∧
+      (vs ≠ [] → ∃ lo hi, agg st s k .min = .ok lo ∧ agg st s k .max = .ok hi ∧ lo ∈ vs ∧ hi ∈ vs ∧
+        ∀ x ∈ vs, lo ≤ x ∧ x ≤ hi)) ∧
+    ((st.get s).mapM (fun i => (st.agent i).attr k) = none →
+      (∀ f, agg st s k f = .error .attr) ∧ map st s (.dbl k) = .error .attr ∧ ∀ d, map st s (.plus k d) = .error .attr) ∧
+    (map st s .nosuch = .ok [] ↔ st.get s = []) ∧ (st.get s ≠ [] → map st s .nosuch = .error .attr) := by
+  refine ⟨fun vs h => ⟨fun he => ?_, fun hne => ?_⟩, fun h => ⟨fun f => ?_, ?_, fun d => ?_⟩, ?_, fun hne => ?_⟩
+  · subst he; simp [agg, h]
+  · cases vs with
+    | nil => exact absurd rfl hne
+    | cons v rest =>
+      obtain ⟨m1, m2⟩ := foldl_min_spec v rest
+      obtain ⟨x1, x2⟩ := foldl_max_spec v rest
+      exact ⟨rest.foldl min v, rest.foldl max v, by simp [agg, h], by simp [agg, h], m1, x1, fun x hx => ⟨m2 x hx, x2 x hx⟩⟩
+  · cases f <;> simp [agg, h]
+  · simp [map, h]
+  · simp [map, h]
+  · by_cases he : st.get s = [] <;> simp [map, he]
+  · simp [map, hne]
+
+example : agg { pop := [⟨0, 0, [(0, 4)]⟩, ⟨1, 0, [(0, -2)]⟩, ⟨2, 0, [(0, 7)]⟩], sets := [[0, 1, 2], []], rng := ⟨[]⟩ } 0 0 .min = .ok (-2) ∧
+    agg { pop := [⟨0, 0, [(0, 4)]⟩, ⟨1, 0, [(0, -2)]⟩, ⟨2, 0, [(0, 7)]⟩], sets := [[0, 1, 2], []], rng := ⟨[]⟩ } 0 0 .max = .ok 7 ∧
+    agg { pop := [⟨0, 0, [(0, 4)]⟩, ⟨1, 0, [(0, -2)]⟩, ⟨2, 0, [(0, 7)]⟩], sets := [[0, 1, 2], []], rng := ⟨[]⟩ } 1 0 .min = .error .value :=
+  ⟨by rfl, by rfl, by rfl⟩
+
 /-! ### non-vacuity: a concrete store exercising the statements above -/
 
 private def demo : Store :=
